@@ -59,6 +59,22 @@ CHECKS = {
          "Exploration, exhaustive for small shapes: an own DagLike implementation over bare shapes is iterated with NoSharing, InternalSharing and a class tracker modelling identity-hash sharing; post-order, right-to-left post-order, pre-order, verbose pre-order (with and without depth limit) and is_shared_as are compared with a recursive seen-set specification and an independent validity predicate (consecutive indices, children earlier, reported child indices hold the actual children).",
          "Trusted: the recursive specification in harness/src/props/c18.rs. MaxSharing on real CommitNode/RedeemNode DAGs is exercised by the C01 check, not here.",
          "DESIGN.md §6 C18"),
+ "C06": ("property-based differential testing of the Rust Bit Machine against libsimplicity's evaluator: generated Elements programs and per-jet templates (all 471 jets) x generated witnesses x generated transaction environments; verdict comparison",
+         "Exploration with a differential partner: the verdict of BitMachine::exec (success / assertion / jet failure) must equal the verdict of evalTCOExpression(CHECK_NONE) on the program's serialisation in the same marshalled environment. Per-jet templates compare the jet's output inside the program with the value the Rust machine observed (combinator-only equality feeding assertr or the verify jet), so the verdict depends on every output bit as the C evaluator computes it; one-bit mutations of the expected value must fail with the predicted kind on both sides.",
+         "Trusted: libsimplicity as the reference; own extern declaration of evalTCOExpression with the C header's 9 parameters; the environment is marshalled once by ElementsEnv::new and shared (as the property states; its content is C15's subject). Programs with fail nodes are outside (C does not decode them); for_program refusals, LimitExceeded and C ExecMemory/ExecBudget/Malloc are counted as outside the limits. A program C refuses to decode or type is C03's subject and is counted, not compared.",
+         "DESIGN.md §6 C06"),
+ "C15": ("property-based testing: generated Elements transaction environments x 67 introspection jets x in-range and out-of-range indices, against field values recomputed from the Rust-side description",
+         "Exploration with a reference model: each one-jet program is run on the Bit Machine in an environment built by ElementsEnv::new from a generated description (issuances, peg-ins, confidential fields, annexes, OP_RETURN data, control blocks, lock times and sequences at their boundaries); the compact output must equal the value computed in harness/src/props/c15.rs from the description per the jet specifications; out-of-range indices yield the absent form; check_lock_* succeed exactly when the argument does not exceed the lock value.",
+         "Trusted: the per-jet reference functions in c15.rs (written from elementsJets.c/env.c descriptions, SHA-256 from bitcoin_hashes), gen::txenv. Not asserted (counted): annex status of a one-item witness stack starting with 0x50. F16 (peg-in derived from the witness instead of the flag) is repaired in /repo.",
+         "DESIGN.md §6 C15"),
+ "C17": ("property-based testing and string fuzzing: generated committed programs, generated well-formed source texts in an independent printer's style, token soup, deep nestings, edited texts and raw strings; render/parse round-trip oracle; termination watchdog",
+         "Exploration with a round-trip oracle: program -> from_program -> string_serialize -> parse and text -> parse -> string_serialize -> parse must reproduce the cmr, every node's combinator/payload/children/types/ihr in the MaxSharing walk and the bit encoding; Forest::parse returns Ok or an error list without panic, stack overflow or hang (watchdog; a confirmed hang is a violation for this property) on every generated string. Eight minimal reproducers of the seven repaired defects are enumerated on every run.",
+         "Trusted: the independent text printer gen::text (a text it prints may be rejected, e.g. for an ascription that no longer fits; only accepted texts are held to the round trip), the walk comparison shared with C01. Texts > 40 kB and renderings > 120 kB are skipped for cost (the lexer is quadratic). Allocation growth of parse and panics of the ErrorSet display with source attached are labelled observations, outside the statement.",
+         "DESIGN.md §6 C17"),
+ "C20": ("property-based testing over generated job batches and thread assignments: sequential run vs concurrent run on 2-16 OS threads with a start barrier; per-job digest equality",
+         "Exploration with a determinism oracle: every job (type inference in a fresh context, witness attachment, encode/decode, roots, bounds, execution with C jets, prune, text render/parse, Value hashing/comparison on Arcs shared between threads) returns a digest of everything it computed; digests of the concurrent run must equal those of the sequential run and no thread may panic. The harness does not own the scheduler: interleavings are whatever 16 cores produce under a barrier start, so this can only find races that manifest readily.",
+         "Trusted: the digest functions; thread assignment is drawn from the stream but OS scheduling is not reproducible: a replay file reproduces the batch and assignment, not the interleaving. Weak level by nature of the technique (stated in DESIGN.md §6 C20).",
+         "DESIGN.md §6 C20"),
  # id: (technique, level text, level note, design ref)
  "C13": ("property-based testing (proptest-driven choice streams) + exhaustive enumeration of naturals, against a from-scratch reference coder and a Vec<bool> stream model",
          "Exploration with a reference model. Naturals are enumerated exhaustively for 1..2^17 and +-2000 around every power of two to 2^33 at 12 result types and several bounds; arbitrary byte strings are decoded against a reference decoder (uniqueness of encoding); writer/reader op sequences, windows and collect_bits are compared with a bit-vector model. Finds wrong bits, counters, truncation and close() errors on everything generated; proves nothing beyond that.",
@@ -70,7 +86,7 @@ CHECKS = {
          "DESIGN.md §6 C19"),
 }
 
-NOT_YET = {}
+NOT_YET = {"C06": "check not built yet in this tree; planned in DESIGN.md §6 C06 as a property-based differential of Rust and C evaluator verdicts (nothing is claimed for it)"}
 
 ALL = ["C%02d" % i for i in range(1, 21)]
 props = {}
